@@ -149,6 +149,9 @@ def _gen_post_raw(r, nvars, pool):
         return {"op": "amo_heule", "lits": [_gen_lit(r, nvars) for _ in range(r.randint(0, 9))],
                 "k": r.weighted([(2, 1), (3, 5), (4, 3), (5, 2), (6, 1)])}
     if k < 50:
+        if r.chance(0.3):
+            # a query under assumptions, the way callers do it with this layer: push unit clauses, solve, pop them
+            return {"op": "solve", "assume": [_gen_lit(r, nvars) for _ in range(r.randint(1, 2))]}
         return {"op": "solve"}
     # pseudo-Boolean: from the shared pool (same constraint posted to several managers) or fresh
     if pool and r.chance(0.45):
@@ -267,7 +270,13 @@ def gen_case(r, index, tier):
     # faults: about 35 % of the runs get an abort somewhere
     if r.chance(0.35):
         cands = [i for i, o in enumerate(ops) if o["op"] in ("pb", "amo_heule")]
-        if cands:
+        solves = [i for i, o in enumerate(ops) if o["op"] == "solve"]
+        if solves and r.chance(0.3):
+            # an interrupted query: nothing was posted, the caller simply asks again
+            i = r.choice(solves)
+            ops[i]["fault"] = {"kind": "abort", "line_event": r.randint(1, r.choice([10, 60, 400])), "only": "satmanager.py"}
+            ops.insert(i + 1, {k_: v for k_, v in ops[i].items() if k_ != "fault"})
+        elif cands:
             i = r.choice(cands)
             hi = r.choice([40, 400, 400, 3000])
             ops[i]["fault"] = {"kind": "abort", "line_event": r.randint(1, hi)}
@@ -628,15 +637,40 @@ def _simulate(case, only_client=None, collect=None):
         if kind == "pb":
             key["cmp"] = o["cmp"]
         if kind == "solve":
+            assume = o.get("assume") or []
+            if assume:
+                key["assume"] = True
+                ops_count["solve_under_assumptions"] = ops_count.get("solve_under_assumptions", 0) + 1
+            npushed = 0
             try:
-                res = cl.m.solve()
+                for l in assume:
+                    cl.m.add_clause([cl.lit(l)])
+                    npushed += 1
+                if fault is not None:
+                    configured["abort"] = configured.get("abort", 0) + 1
+                    ab = abortmod.Aborter(root, fault["line_event"], fault.get("only"))
+                    st, val = ab.run(cl.m.solve)
+                    if st == "aborted":
+                        fired["abort"] = fired.get("abort", 0) + 1
+                        probe("solve_interrupted")
+                        hist.append({"seq": seq, "c": c, "op": kind, "out": "aborted at " + str(val)})
+                        sig.append((c, kind, "", "aborted", "abort"))
+                        continue
+                    res = val
+                else:
+                    res = cl.m.solve()
+            except abortmod.SimAbort:
+                raise
             except BaseException as e:  # noqa
                 viol.append({"property": "C07", "clause": "solve raised", "key": key,
                              "detail": {"seq": seq, "client": c, "exc": repr(e)}})
                 hist.append({"seq": seq, "c": c, "op": kind, "out": "raised " + type(e).__name__})
                 sig.append((c, kind, "", "raised", ""))
                 continue
-            ref = cl.reference_models()
+            finally:
+                if npushed:
+                    del cl.m.clauses[-npushed:]
+            ref = {a for a in cl.reference_models() if all(_litval(l, a) for l in assume)}
             out = "sat" if res else "unsat"
             if cl.diverged:
                 probe("solve_check_skipped_after_reported_divergence")
